@@ -579,9 +579,27 @@ def build_monitor(rng, ndocs, nhist, njobs):
     return docs, jobs, cases
 
 
+def repo_digest():
+    import hashlib
+    h = hashlib.sha1()
+    for root, _, files in sorted(os.walk(os.path.join(common.REPO, 'weasyprint'))):
+        for f in sorted(files):
+            if f.endswith('.py'):
+                st = os.stat(os.path.join(root, f))
+                h.update(('%s %d %d\n' % (os.path.join(root, f), st.st_mtime_ns, st.st_size)).encode())
+    return h.hexdigest()
+
+
 def stream_monitor(run, rng, ndocs, nhist, njobs):
     docs, jobs, cases = build_monitor(rng, ndocs, nhist, njobs)
-    outs = common.run_impl('impl_c19', 'spawn', cases, limit=700, chunksize=1)
+    # the interpreters of one run must all see the same source tree: if /repo is edited meanwhile, run again (once)
+    reruns = 0
+    while True:
+        before = repo_digest()
+        outs = common.run_impl('impl_c19', 'spawn', cases, limit=700, chunksize=1)
+        if repo_digest() == before or reruns >= 2:
+            break
+        reruns += 1
     by_key, by_layout = {}, {}
     nsteps = 0
     seen = set()
@@ -654,6 +672,8 @@ def stream_monitor(run, rng, ndocs, nhist, njobs):
         for f in d['feats']:
             feats[f] = feats.get(f, 0) + 1
     run.stream_info('monitor', documents=ndocs, histories=nhist, interpreters=len(jobs), renders=nsteps, keys=len(by_key),
+                    reruns_because_the_source_tree_changed=reruns,
+                    interpreter_crashes_retried=sum(len(o.get('crashes_before', [])) for st, o in outs if st == 'ok' and isinstance(o, dict)),
                     keys_observed_more_than_once=multi, configurations=len(seen), features=feats,
                     rule='random documents (grammar above) x 2 option profiles; every key rendered once in a fresh interpreter under two of '
                          'PYTHONHASHSEED 0..3 and again inside histories of 2..6 renders (one HTML object re-rendered, one document, '
@@ -972,6 +992,35 @@ def stream_zoom_render(run, rng, n):
                          'after the scale matrix is identical; BleedBox follows the 10 pt rule; judged in Python')
 
 
+def same_ops(a, b, tol=2.5e-6):
+    if len(a) != len(b):
+        return False
+    for (oa, aa), (ob, ab) in zip(a, b):
+        if oa != ob or len(aa) != len(ab):
+            return False
+        for x, y in zip(aa, ab):
+            if isinstance(x, float) and isinstance(y, float):
+                if abs(x - y) > tol * (1 + abs(y)):
+                    return False
+            elif x != y:
+                return False
+    return True
+
+
+def resolve_rest(o):
+    table = {}
+    for group in (o['fresh'], o['same_document']):
+        for g in group:
+            for p in g['pages']:
+                if 'ops' in p['rest']:
+                    table[p['rest']['id']] = p['rest']['ops']
+    for group in (o['fresh'], o['same_document']):
+        for g in group:
+            for p in g['pages']:
+                p['rest_id'] = p['rest'].get('id', p['rest'].get('same_as'))
+                p['rest'] = table[p['rest_id']]
+
+
 def stream_zoom_render_docs(run, docs):
     outs = common.run_impl('impl_c19', 'zoom_render', docs, limit=240, chunksize=1)
     nboxes = nannots = 0
@@ -980,6 +1029,7 @@ def stream_zoom_render_docs(run, docs):
             report(run, 'render at several zooms raised/timed out: %s' % (str(o)[:300],), {'stream': 'zoom-render', 'doc': d},
                    'crash:%s' % ((o or {}).get('site'),) if st == 'exc' else 'timeout')
             continue
+        resolve_rest(o)
         base = o['fresh'][ZOOMS.index(1)]
         for z, g in zip(ZOOMS, o['fresh']):
             bad = None
@@ -994,7 +1044,7 @@ def stream_zoom_render_docs(run, docs):
                         bad = (k, pi, pg[k], pb[k])
                 if not all(_close(a, z * b, z) for a, b in zip(pg['ctm'], pb['ctm'])) or pg['ncm'] != 2:
                     bad = bad or ('ctm', pi, pg['ctm'], pb['ctm'])
-                if pg['rest'] != pb['rest']:
+                if pg['rest_id'] != pb['rest_id'] and not same_ops(pg['rest'], pb['rest']):
                     bad = bad or ('content-after-the-scale-matrix', pi, pg['nops'], pb['nops'])
                 if len(pg['annots']) != len(pb['annots']):
                     bad = bad or ('annotation-count', pi)
@@ -1031,7 +1081,8 @@ def stream_zoom_render_docs(run, docs):
                 break
         # the same Document written at the six zooms: same content as the fresh renders
         for z, g, f in zip(ZOOMS, o['same_document'], o['fresh']):
-            if [p['rest'] for p in g['pages']] != [p['rest'] for p in f['pages']]:
+            if len(g['pages']) != len(f['pages']) or not all(pa['rest_id'] == pb['rest_id'] or same_ops(pa['rest'], pb['rest'])
+                                                              for pa, pb in zip(g['pages'], f['pages'])):
                 report(run, 'one Document written at several zooms: page content differs from a fresh render at zoom %s' % z,
                        {'stream': 'zoom-render', 'doc': d, 'zoom': z},
                        'c19:marks-layer-accumulates-on-rewrite' if has_marks(d) else 'c19:document-rewrite-differs')
